@@ -84,6 +84,7 @@ def job(j):
     if 'too small for a journal' in out:                                  # announced degradation: journal (and with it the orphan file) is left out
         want.pop('has_journal', None); want.pop('orphan_file', None)
     if want.get('bigalloc'): want.pop('extent', None)
+    if want.get('metadata_csum'): want.pop('uninit_bg', None)         # metadata_csum supersedes uninit_bg (ext4(5)); mke2fs keeps only the former
     for f, on in want.items():
         if f in FEATURE_BITS:
             w, b = FEATURE_BITS[f]
@@ -159,6 +160,16 @@ def main(tier, only=None):
             for s in ((3000, 9000) if quick else (1500, 3000, 9000, 20000)):
                 if dv == ['-E', 'offset=4096']: s2 = s
                 jobs.append(('opt/%s/%s/%dk' % (name, ' '.join(x if not x.startswith('/') else 'DIR' for x in dv), s), o + dv + (['-b', '1024'] if '-T' not in dv else []), s, 1024 if '-T' not in dv else None, s == 3000))
+    # (4) pairwise feature interaction: every pair of feature toggles on top of ext4 (each feature alone is in (3)/(1); code that serves one feature often forgets another)
+    TOG = ['bigalloc', 'orphan_file', '^has_journal', 'quota', 'project', 'inline_data', 'meta_bg', '^resize_inode', '64bit', 'metadata_csum', '^metadata_csum', 'sparse_super2', 'ea_inode', '^flex_bg',
+           '^extent', 'uninit_bg', 'encrypt', 'casefold', 'mmp', 'large_dir', '^huge_file', '^dir_index', 'fast_commit', 'stable_inodes', 'verity', '^sparse_super', '^ext_attr', 'metadata_csum_seed']
+    for i, a in enumerate(TOG):
+        for b in TOG[i + 1:]:
+            if a.lstrip('^') == b.lstrip('^'): continue
+            for s in ((3000, 9000) if quick else (1500, 3000, 9000, 20000)):
+                for bs in ((1024,) if quick else (1024, 4096)):
+                    o = ['-t', 'ext4', '-O', a + ',' + b, '-b', str(bs)] + (['-C', str(bs * 4)] if 'bigalloc' in (a, b) else []) + (['-J', 'size=1'] if '^has_journal' not in (a, b) and bs == 1024 else [])
+                    jobs.append(('pair/%s+%s/b%d/%dk' % (a, b, bs, s), o, s, bs, False))
     # explicit reproducibility runs
     for name, o in FS:
         jobs.append(('repro/%s#repro' % name, o + ['-b', '1024', '-d', root], 6000, 1024, True))
@@ -172,7 +183,7 @@ def main(tier, only=None):
             ck.violation('%s :: %s' % (cid, b[:50]), {'case': cid, 'options': j[1], 'size_k': j[2], 'what': b, 'root_cause_class': 'mmp-block-wall-clock' if b.startswith('MMP-WALL-CLOCK') else None})
     ck.add(evaluations=len(jobs), distinct_nontrivial=acc, states=len(jobs), transitions=len(jobs), traces_validated_against_impl=len(jobs),
            rule='configurations: (1) feature set x every device size from 40k to 4 groups+20 (1k blocks, -g 256; bigalloc every size to 4 MiB, quick every 3rd), (2) sizes +-12 blocks around 16/17/32/33/64/65 groups (descriptor-block boundaries) '
-                'and around 1,2,3,5 groups for 2k/4k blocks, (3) each of ~50 option deviations (-I -i -N -m -G -E stride/resize/packed_meta_blocks/num_backup_sb/offset/root_owner... -d -T -J -O encrypt/casefold/...) x feature set x sizes; '
+                'and around 1,2,3,5 groups for 2k/4k blocks, (4) every pair out of 28 feature toggles on top of ext4 (bigalloc, orphan_file, journal off, quota, project, inline_data, meta_bg, resize_inode off, 64bit, metadata_csum on/off, sparse_super2, ea_inode, flex_bg off, extent off, uninit_bg, encrypt, casefold, mmp, large_dir, ...) x sizes; (3) each of ~50 option deviations (-I -i -N -m -G -E stride/resize/packed_meta_blocks/num_backup_sb/offset/root_owner... -d -T -J -O encrypt/casefold/...) x feature set x sizes; '
                 'every 5th target is pre-filled with 0xEE and first given to mke2fs -n (must stay identical); oracle on accepted configurations: e2fsck -fn = 0, independent checker clean, requested block/cluster/inode size, -g, -N, features present, '
                 's_blocks_count within the device, exact backup set with current contents, second run byte-identical (1 in 7 + explicit runs). distinct_nontrivial = accepted configurations',
            samples=[jobs[0][0], jobs[len(jobs) // 2][0], jobs[-1][0]])
